@@ -56,6 +56,21 @@ PROPOSED = [
              "validate_input). With the default options the same start gives a bump instead. Scoped by the spec to calls that "
              "started on a boundary and took the re-entrant retry branch; a volume change without a reported boundary "
              "anywhere else is a VIOLATION."},
+    {"id": "F-FIELD-4", "property": "C08", "status": "known", "match": {"clause": "C08.DriverStepMatchesState.BudgetExhausted"},
+     "what": "FieldDriver::find_next_chord and FieldDriver::one_good_step shrink `step` AFTER the stepper evaluation and, when "
+             "the max_nsteps trial budget runs out on a rejected trial, return that evaluation's end state together with the "
+             "shrunk step: advance() then reports a step up to 10x (one_good_step, max_stepping_decrease = 0.1) or 2x "
+             "(find_next_chord, min_chord_shrink = 0.5) shorter than the arc length its state was integrated over. Unreachable "
+             "with the default max_nsteps = 100, immediate with small valid values. Input: three-spheres.org.json e- "
+             "E=0.052471778528454603 MeV UniformField (-0.21429296121951585,1.5097462963233053,1.6020893631924991) T, "
+             "Dormand-Prince, step=21.793420329147665, pos=(-5.0572459395718434,80.90288836105718,-21.418397292581751) "
+             "dir=(0.05629301627660923,-0.13407653585295179,0.98937079947416751), minimum_step=3.9048604058336106e-08, "
+             "delta_chord=0.0060196117267676923, delta_intersection=1.916604356998695e-07, max_substeps=30, "
+             "epsilon_rel_max=2.7887454546778229e-10, max_nsteps=1: every substep reports 0.1 of what it moved; the call "
+             "returns distance 0.1376 cm with the particle 0.76 cm from the analytic helix point. Scoped by the harness to "
+             "advances whose returned state is AHEAD of the reported step by no more than (1 - max_stepping_decrease) x the "
+             "steps of chain links that used up max_nsteps trials; a state BEHIND its step, or ahead without an exhausted "
+             "trial loop, is the VIOLATION C08.DriverStepMatchesState."},
 ]
 
 
@@ -298,7 +313,8 @@ def run(ctx):
         "scripted world is 1-D: chord = s or s/2 along +x, momentum identified by tokens; lengths are multiples of 2^-20 cm so the code's double arithmetic is exact (LatticeExact checked by TLC, `exact` flag checked per record)",
         "chord length 0 and NaN directions are not modelled",
         "real mode: build has CELERITAS_DEBUG=OFF, so CELER_ASSERT/ENSURE inside the propagator are not evaluated; the two assertions a debug build would evaluate on the result are clauses C08.Edge.*",
-        "ORACLE-DECIDED (harness, independent of the code's steppers): closed-form helix in uniform fields with a-priori brackets from the CONFIGURED tolerances (epsilon_rel_max per stepper evaluation, delta_intersection, minimum_step); |p|: unit direction to 1e-12, particle momentum untouched, integrated |p| drift <= 10 eps n; fresh point location by a new OrangeTrackView at the end point",
+        "ORACLE-DECIDED (harness, independent of the code's steppers): closed-form helix in uniform fields, per FieldDriver::advance call (state returned vs helix at the RETURNED step) and per propagation; brackets = tolerance table in harness/vfield.cc (10 x the largest normalised residual measured on the unchanged tree, in units of epsilon_rel_max x the driver's own error estimate); |p|: unit direction to 1e-12, particle momentum untouched, integrated |p| drift bracketed likewise; fresh point location by a new OrangeTrackView at the end point",
+        "driver level: the chain of stepper evaluations behind every returned state is reconstructed from bit-identical states (CountStepper/RecDriver); steps differing by less than an ulp of the position can alias (tolerance 1e-15 |pos| per link)",
         "after a zero-progress bump only the tracked volume is compared (the fresh location may differ: counted as impl_stats.bumpout)",
         "fixtures with known overlaps / involutes / union-boundary daughters are not used",
     ]
